@@ -41,6 +41,7 @@ KEYDIR = os.path.join(core.ROOT, "fixtures", "keys")
 PKG = os.path.dirname(os.path.abspath(paramiko.__file__))
 CLS = {"rsa": RSAKey, "ecdsa": ECDSAKey, "ed25519": Ed25519Key}
 RSA_ALGS = ["ssh-rsa", "rsa-sha2-256", "rsa-sha2-512"]
+SLOW_QUICK, SLOW_SOME, SLOW_ALWAYS = 1 << 15, 1 << 17, 1 << 19   # declared ECDSA mpint lengths (bytes)
 
 # kid -> (kind, file or None, password, generator args)
 KEYSPEC = [
@@ -197,6 +198,13 @@ def judge(acc, kid, oid, alg, data, blob, expect, family, genuine_blob, replay_e
         rep.update(replay_extra)
     if how == "exc":
         iclass = R.input_class(kind, blob)
+        if genuine_blob is not None and blob != genuine_blob and iclass != "algorithm-name-not-utf8":
+            # minimise: does the untouched genuine signature fail the same way under this object?
+            h0, v0 = run_verify(key, data, genuine_blob)
+            if h0 == "exc" and type(v0) is type(val):
+                iclass = "any-signature"
+        elif blob == genuine_blob:
+            iclass = "any-signature"
         key_s = "never-raises|%s.verify_ssh_sig|%s@%s|%s" % (cname, type(val).__name__, site_of(val), iclass)
         # is the failure specific to the way the object was obtained?
         if origin != "public-bytes":
@@ -385,6 +393,15 @@ def work_edits(item, acc):
     gname = R.outer(blob)[0]
     lst = edits(kid, alg, blob, tier, full=(mi == 1 or tier == "thorough"))[lo:hi]
     for fam, eb in lst:
+        big = R.max_declared_mpint(kind, eb)
+        if big >= SLOW_ALWAYS or (big >= SLOW_SOME and not (oid == "from_type_string" and mi == 1)) \
+                or (tier == "quick" and big >= SLOW_QUICK and oid != "from_type_string"):
+            # util.inflate_long is quadratic: a declared mpint length of 2^17..2^19 (zero-filled by
+            # Message.get_bytes) costs seconds to minutes per call.  That is a performance matter C35
+            # says nothing about, so these few positions are run under one verifier object only
+            # (2^15..2^18) or left out (>= 2^19) - counted, and stated in the evidence.
+            acc.count("excluded_slow_inflate_long")
+            continue
         if eb == blob:
             expect = "true"
         elif R.semantics(kind, eb) == gsem:
